@@ -6,6 +6,8 @@ C43 — Cluster routes take the path their pool's encapsulation requires.
 
 Property theorems only (helper lemmas: `CalicoVerif.Proofs.C43`).
 
+(Both IP families: a CIDR carries its family; the resolver's two tries are one family-tagged map.)
+
 * `route_kind_correct`        — resolver ∘ routeManager: for the route of a remote block (or a
   borrowed address recorded in a block), whatever pools/blocks lie above it and whatever the node
   table is, the manager of the pool's type keeps the route and programs it directly via the owning
@@ -87,13 +89,13 @@ the owner: a VXLAN route via the owner's VTEP / an on-link IPIP route via the ow
 theorem route_kind_correct (m : RM) (me : Nat) (nodes : List (Nat × NodeInfo)) (c : Cidr)
     (pre : List (Cidr × RouteInfo)) (ri : RouteInfo) (n : Nat) (ni : NodeInfo)
     (hpre : PlainAncestors pre) (hb : ri.block = some n) (hh : ri.hosts = []) (hr : ri.refs = [])
-    (hn : n ≠ me) (hnode : aget nodes n = some ni) (hip : ni.v4Addr ≠ 0)
+    (hn : n ≠ me) (hnode : aget nodes n = some ni) (hip : ni.addrOf c.v6 ≠ 0)
     (hparent : m.parent = true)
     (hpt : (routeOfPath me nodes c (pre ++ [(c, ri)])).poolType = m.pt) :
     let r := routeOfPath me nodes c (pre ++ [(c, ri)])
-    let direct := m.pt = ptNoEncap ∨ (pathCross (pre ++ [(c, ri)]) = true ∧ nodeInOurSubnet me nodes n = true)
+    let direct := m.pt = ptNoEncap ∨ (pathCross (pre ++ [(c, ri)]) = true ∧ nodeInOurSubnet c.v6 me nodes n = true)
     aget (m.onRouteUpdate r).routes c = some r ∧
-    (m.targetOf r = some (true, { cidr := c, typ := .noEncap, gw := ni.v4Addr }) ↔ direct) ∧
+    (m.targetOf r = some (true, { cidr := c, typ := .noEncap, gw := ni.addrOf c.v6 }) ↔ direct) ∧
     (¬ direct → m.targetOf r = (m.tunnelRoute r).map (fun t => (false, t)) ∧
       m.tunnelRoute r =
         (if m.pt = ptVXLAN then (aget m.vteps n).map (fun a => { cidr := c, typ := .vxlan, gw := a })
@@ -111,20 +113,20 @@ theorem route_kind_correct (m : RM) (me : Nat) (nodes : List (Nat × NodeInfo)) 
   have hstores : stores m.pt r = true := by
     simp [stores, hrw, show r.poolType = m.pt from hpt]
   have hspec := targetOf_spec m r
-  have hss : r.sameSubnet = (pathCross (pre ++ [(c, ri)]) && nodeInOurSubnet me nodes n) := by
+  have hss : r.sameSubnet = (pathCross (pre ++ [(c, ri)]) && nodeInOurSubnet c.v6 me nodes n) := by
     simpa using h6
   have hdir : (m.parent = true ∧ (m.pt = ptNoEncap ∨ r.sameSubnet = true) ∧ r.dstNodeIp ≠ 0) ↔ direct := by
     simp only [direct, hss, hparent, true_and, Bool.and_eq_true]
     constructor
     · intro h; exact h.1
-    · intro h; exact ⟨h, by rw [show r.dstNodeIp = ni.v4Addr from h5]; exact hip⟩
+    · intro h; exact ⟨h, by rw [show r.dstNodeIp = ni.addrOf c.v6 from h5]; exact hip⟩
   refine ⟨?_, ?_, ?_⟩
   · have := (onRouteUpdate_spec m r c).2.1
     rw [this, show r.dst = c from h1]
     simp [storedOf, hstores]
   · have e : ({ cidr := r.dst, typ := .noEncap, gw := r.dstNodeIp } : Target)
-        = { cidr := c, typ := .noEncap, gw := ni.v4Addr } := by
-      rw [show r.dst = c from h1, show r.dstNodeIp = ni.v4Addr from h5]
+        = { cidr := c, typ := .noEncap, gw := ni.addrOf c.v6 } := by
+      rw [show r.dst = c from h1, show r.dstNodeIp = ni.addrOf c.v6 from h5]
     rw [← e]
     exact hspec.1.trans hdir
   · intro hnd
@@ -143,12 +145,12 @@ theorem route_kind_correct (m : RM) (me : Nat) (nodes : List (Nat × NodeInfo)) 
 local node's 10.0.1.0/24: the IPIP manager programs it directly via 10.0.1.13. -/
 example :
     let nodes : List (Nat × NodeInfo) :=
-      [(1, { v4Addr := 167772427, cidr := ⟨167772416, 24⟩, ipip := 0, vxlan := 0, wg := 0 }),
-       (3, { v4Addr := 167772429, cidr := ⟨167772416, 24⟩, ipip := 0, vxlan := 0, wg := 0 })]
-    let pre : List (Cidr × RouteInfo) := [(⟨3232235776, 24⟩, { pool := some ⟨ptIPIP, false, true⟩ })]
+      [(1, { v4Addr := 167772427, cidr := ⟨167772416, 24, false⟩, ipip := 0, vxlan := 0, wg := 0 }),
+       (3, { v4Addr := 167772429, cidr := ⟨167772416, 24, false⟩, ipip := 0, vxlan := 0, wg := 0 })]
+    let pre : List (Cidr × RouteInfo) := [(⟨3232235776, 24, false⟩, { pool := some ⟨ptIPIP, false, true⟩ })]
     let m : RM := { pt := ptIPIP, me := 1, eth0Addr := 167772427, parent := true }
-    m.targetOf (routeOfPath 1 nodes ⟨3232235840, 26⟩ (pre ++ [(⟨3232235840, 26⟩, { block := some 3 })]))
-      = some (true, { cidr := ⟨3232235840, 26⟩, typ := .noEncap, gw := 167772429 }) := by decide
+    m.targetOf (routeOfPath 1 nodes ⟨3232235840, 26, false⟩ (pre ++ [(⟨3232235840, 26, false⟩, { block := some 3 })]))
+      = some (true, { cidr := ⟨3232235840, 26, false⟩, typ := .noEncap, gw := 167772429 }) := by decide
 
 /-- the pool type the resolver attributes to a route is that of the innermost pool on the path whose
 type is not NONE (and NONE when there is none). -/
@@ -209,8 +211,8 @@ def RM.applyOp (m : RM) : MOp → RM
 /-- no local block / blackhole target is an exact (/32) route, and none is a route flagged as a live
 local workload. -/
 def BHInv (m : RM) : Prop :=
-  (∀ e ∈ m.localBlocks, e.1.len ≠ 32 ∧ e.2.localWorkload = false) ∧
-  (∀ row ∈ m.table, ∀ t ∈ row.2, t.typ = .blackhole → t.cidr.len ≠ 32)
+  (∀ e ∈ m.localBlocks, e.1.len ≠ e.1.width ∧ e.2.localWorkload = false) ∧
+  (∀ row ∈ m.table, ∀ t ∈ row.2, t.typ = .blackhole → t.cidr.len ≠ t.cidr.width)
 
 theorem mem_aset {κ α} [BEq κ] (m : List (κ × α)) (k : κ) (v : α) (e : κ × α) (h : e ∈ aset m k v) :
     e = (k, v) ∨ e ∈ m := by
@@ -306,7 +308,7 @@ theorem targetOf_not_blackhole (m : RM) (r : RouteUpdate) (b : Bool) (t : Target
         · simp at ht
 
 theorem bh_setRoutes (m : RM) (cls ifc : Nat) (ts : List Target) (h : BHInv m)
-    (hts : ∀ t ∈ ts, t.typ = .blackhole → t.cidr.len ≠ 32) : BHInv (m.setRoutes cls ifc ts) := by
+    (hts : ∀ t ∈ ts, t.typ = .blackhole → t.cidr.len ≠ t.cidr.width) : BHInv (m.setRoutes cls ifc ts) := by
   refine ⟨h.1, ?_⟩
   intro row hrow
   rcases mem_aset _ _ _ _ hrow with hr | hr
@@ -318,14 +320,14 @@ theorem bh_updateRoutes (m : RM) (h : BHInv m) : BHInv m.updateRoutes := by
   simp only []
   have hnb : ∀ (p : Bool → Bool) (t : Target),
       t ∈ ((m.routes.filterMap (fun e => m.targetOf e.2)).filter (fun t => p t.1)).map (·.2) →
-      t.typ = .blackhole → t.cidr.len ≠ 32 := by
+      t.typ = .blackhole → t.cidr.len ≠ t.cidr.width := by
     intro p t ht hbh
     obtain ⟨bt, hbt, rfl⟩ := List.mem_map.1 ht
     have hbt' := (List.mem_filter.1 hbt).1
     obtain ⟨e, _, he⟩ := List.mem_filterMap.1 hbt'
     exact absurd hbh (targetOf_not_blackhole m e.2 bt.1 bt.2 he)
   have hbhl : ∀ t ∈ m.localBlocks.map (fun e => ({ cidr := e.1, typ := .blackhole } : Target)),
-      t.typ = .blackhole → t.cidr.len ≠ 32 := by
+      t.typ = .blackhole → t.cidr.len ≠ t.cidr.width := by
     intro t ht _
     obtain ⟨e, he, rfl⟩ := List.mem_map.1 ht
     exact (h.1 e he).1
@@ -412,10 +414,10 @@ theorem local_wep_route_not_local_block (me : Nat) (nodes : List (Nat × NodeInf
 /-- non-vacuity: a local /26 block is blackholed, the /32 of a local workload inside it is not. -/
 example :
     let m0 : RM := { pt := ptIPIP, me := 1, eth0Addr := 167772427 }
-    let blk : RouteUpdate := { dst := ⟨3232235840, 26⟩, types := tLocalWorkload, poolType := ptIPIP, dstNode := some 1 }
-    let wep : RouteUpdate := { dst := ⟨3232235843, 32⟩, types := tLocalWorkload, poolType := ptIPIP, dstNode := some 1, localWorkload := true }
+    let blk : RouteUpdate := { dst := ⟨3232235840, 26, false⟩, types := tLocalWorkload, poolType := ptIPIP, dstNode := some 1 }
+    let wep : RouteUpdate := { dst := ⟨3232235843, 32, false⟩, types := tLocalWorkload, poolType := ptIPIP, dstNode := some 1, localWorkload := true }
     ([MOp.ev (.update blk), MOp.ev (.update wep), MOp.complete].foldl RM.applyOp m0).table
-      = [((6, 2), []), ((9, 3), [{ cidr := ⟨3232235840, 26⟩, typ := .blackhole }])] := by decide
+      = [((6, 2), []), ((9, 3), [{ cidr := ⟨3232235840, 26, false⟩, typ := .blackhole }])] := by decide
 
 /-! ## arrival order -/
 
@@ -506,7 +508,7 @@ them, but they interleave in a real Felix).  Both are exercised by the fresh-ins
 real code only. -/
 theorem dirty_marking_complete_partial (me : Nat) (ops : List Op) (hok : ∀ op ∈ ops, op.ok) :
     let r := St.run { me := me } [] ops
-    ∀ c n, Tracked r.1 c n → c ≠ Cidr.host 0 → aget r.2 c = some (r.1.route c) :=
+    ∀ c n, Tracked r.1 c n → zeroHost c = false → aget r.2 c = some (r.1.route c) :=
   fun c n ht h0 => (run_inv ops _ _ hok (inv_init me)).cur c n ht h0
 
 theorem view_wasSent (s : St) (k : Cidr) : (s.view k).wasSent = false := rfl
@@ -523,8 +525,8 @@ theorem option_eq_of_iff {α} (a b : Option α) (h : ∀ x, a = some x ↔ b = s
     | some y => exact absurd ((h y).2 rfl) (by simp)
   | some x => exact ((h x).1 rfl).symm
 
-theorem nodeInOurSubnet_congr (me : Nat) (nodes nodes' : List (Nat × NodeInfo)) (n : Nat)
-    (h : ∀ m, aget nodes' m = aget nodes m) : nodeInOurSubnet me nodes' n = nodeInOurSubnet me nodes n := by
+theorem nodeInOurSubnet_congr (v6 : Bool) (me : Nat) (nodes nodes' : List (Nat × NodeInfo)) (n : Nat)
+    (h : ∀ m, aget nodes' m = aget nodes m) : nodeInOurSubnet v6 me nodes' n = nodeInOurSubnet v6 me nodes n := by
   unfold nodeInOurSubnet; rw [h n, h me]
 
 /-- **arrival_order_independent (partial).**  Take ANY two histories of node, pool and block updates
@@ -546,7 +548,7 @@ theorem arrival_order_independent_partial (me : Nat) (ops1 ops2 : List Op)
     (hb : ∀ k, (dsOf ops1).blocks k = (dsOf ops2).blocks k) :
     let r1 := St.run { me := me } [] ops1
     let r2 := St.run { me := me } [] ops2
-    ∀ c n, Tracked r1.1 c n → Tracked r2.1 c n → c ≠ Cidr.host 0 → aget r1.2 c = aget r2.2 c := by
+    ∀ c n, Tracked r1.1 c n → Tracked r2.1 c n → zeroHost c = false → aget r1.2 c = aget r2.2 c := by
   intro r1 r2 c n t1 t2 h0
   have i1 := run_inv ops1 _ _ ok1 (inv_init me)
   have i2 := run_inv ops2 _ _ ok2 (inv_init me)
@@ -570,7 +572,7 @@ theorem arrival_order_independent_partial (me : Nat) (ops1 ops2 : List Op)
     · rintro ⟨b, h⟩; exact ⟨b, (hroute b k).trans h⟩
   have hpool : ∀ k, (r1.1.view k).pool = (r2.1.view k).pool := by
     intro k; rw [c1.poolv k, c2.poolv k]; exact hp k
-  have hl : c.len ≤ 32 := i1.aux.l32 c (view_block_ne_empty _ n t1.1)
+  have hl : c.len ≤ c.width := i1.aux.l32 c (view_block_ne_empty _ n t1.1)
   have hpath : fullPath r1.1.view c = fullPath r2.1.view c := by
     apply fullPath_congr
     · exact routeInfo_ext _ _ (hpool c) (hblock c) (t1.2.1.trans t2.2.1.symm) (t1.2.2.trans t2.2.2.symm) rfl
@@ -584,18 +586,18 @@ theorem arrival_order_independent_partial (me : Nat) (ops1 ops2 : List Op)
   rw [hpath, hme1, hme2]
   apply routeOfPath_nodes_congr
   intro n' _
-  exact ⟨hnodes n', nodeInOurSubnet_congr me _ _ n' hnodes⟩
+  exact ⟨hnodes n', nodeInOurSubnet_congr c.v6 me _ _ n' hnodes⟩
 
 /-! ### regression witness of a repaired defect -/
 
 /-- node 3 = 10.0.1.13/24, local node 1 = 10.0.1.11/24 (or v6-only: no IPv4 address/CIDR). -/
-def wNode3 : Op := .node 3 (some { v4Addr := 167772429, cidr := ⟨167772416, 24⟩, ipip := 0, vxlan := 0, wg := 0 })
-def wNode1v6 : Op := .node 1 (some { v4Addr := 0, cidr := ⟨0, 0⟩, ipip := 0, vxlan := 0, wg := 0 })
-def wNode1v4 : Op := .node 1 (some { v4Addr := 167772427, cidr := ⟨167772416, 24⟩, ipip := 0, vxlan := 0, wg := 0 })
+def wNode3 : Op := .node 3 (some { v4Addr := 167772429, cidr := ⟨167772416, 24, false⟩, ipip := 0, vxlan := 0, wg := 0 })
+def wNode1v6 : Op := .node 1 (some { v4Addr := 0, cidr := ⟨0, 0, false⟩, ipip := 0, vxlan := 0, wg := 0 })
+def wNode1v4 : Op := .node 1 (some { v4Addr := 167772427, cidr := ⟨167772416, 24, false⟩, ipip := 0, vxlan := 0, wg := 0 })
 /-- 192.168.1.0/24, IPIP cross-subnet. -/
-def wPool : Op := .pool ⟨3232235776, 24⟩ (some (poolOf 2 0 false false))
+def wPool : Op := .pool ⟨3232235776, 24, false⟩ (some (poolOf 2 0 false false))
 /-- 192.168.1.64/26 affine to node 3. -/
-def wBlock : Op := .block ⟨3232235840, 26⟩ (some 3) []
+def wBlock : Op := .block ⟨3232235840, 26, false⟩ (some 3) []
 
 /-- the two histories end in the same datastore state (the v6-only version of the local node is
 overwritten by the dual-stack one). -/
@@ -607,10 +609,10 @@ pool last, re-homes the block and flaps the local node) with the same final data
 CIDR in both, and non-overlapping blocks throughout. -/
 example :
     let h1 : List Op := [wPool, wBlock, wNode3, wNode1v4]
-    let h2 : List Op := [.block ⟨3232235840, 26⟩ (some 5) [], wNode1v6, wNode3, wBlock, wNode1v4, wPool]
-    Tracked (St.run { me := 1 } [] h1).1 ⟨3232235840, 26⟩ 3 ∧ Tracked (St.run { me := 1 } [] h2).1 ⟨3232235840, 26⟩ 3 ∧
-    aget (St.run { me := 1 } [] h1).2 ⟨3232235840, 26⟩ = aget (St.run { me := 1 } [] h2).2 ⟨3232235840, 26⟩ ∧
-    ((aget (St.run { me := 1 } [] h2).2 ⟨3232235840, 26⟩).map (·.sameSubnet) = some true) := by
+    let h2 : List Op := [.block ⟨3232235840, 26, false⟩ (some 5) [], wNode1v6, wNode3, wBlock, wNode1v4, wPool]
+    Tracked (St.run { me := 1 } [] h1).1 ⟨3232235840, 26, false⟩ 3 ∧ Tracked (St.run { me := 1 } [] h2).1 ⟨3232235840, 26, false⟩ 3 ∧
+    aget (St.run { me := 1 } [] h1).2 ⟨3232235840, 26, false⟩ = aget (St.run { me := 1 } [] h2).2 ⟨3232235840, 26, false⟩ ∧
+    ((aget (St.run { me := 1 } [] h2).2 ⟨3232235840, 26, false⟩).map (·.sameSubnet) = some true) := by
   unfold Tracked
   decide
 
@@ -657,7 +659,7 @@ theorem programmed_routes_order_independent_partial (me pt eth : Nat) (ops1 ops2
     let e2 := (St.runEvents { me := me } ops2)
     let m1 := e1.2.foldl RM.onEvent { pt := pt, me := me, eth0Addr := eth }
     let m2 := e2.2.foldl RM.onEvent { pt := pt, me := me, eth0Addr := eth }
-    ∀ c n, Tracked e1.1 c n → Tracked e2.1 c n → c ≠ Cidr.host 0 →
+    ∀ c n, Tracked e1.1 c n → Tracked e2.1 c n → zeroHost c = false →
       aget m1.routes c = aget m2.routes c ∧ aget m1.localBlocks c = aget m2.localBlocks c := by
   intro e1 e2 m1 m2 c n t1 t2 h0
   have r1 := run_eq_runEvents ops1 { me := me } []
@@ -682,7 +684,7 @@ known without an IPv4 CIDR and then gains 10.0.1.11/24.  Before the repair `onNo
 and left the remote block's route with `SameSubnet = false`; with the zero-CIDR guard both the
 history and the fresh resolver send `SameSubnet = true`. -/
 theorem arrival_order_v4cidr_zero_fixed :
-    let blk : Cidr := ⟨3232235840, 26⟩
+    let blk : Cidr := ⟨3232235840, 26, false⟩
     ((aget ((St.run { me := 1 } [] wHistory).2) blk).map (·.sameSubnet) = some true) ∧
     ((aget ((St.run { me := 1 } [] wFresh).2) blk).map (·.sameSubnet) = some true) := by
   decide
@@ -692,7 +694,7 @@ theorem arrival_order_v4cidr_zero_fixed :
 
 /-- a remote block of node 2 in a VXLAN pool, as the resolver sends it. -/
 def wVxRoute : RouteUpdate :=
-  { dst := ⟨3232235584, 26⟩, types := tRemoteWorkload, poolType := ptVXLAN, dstNode := some 2, dstNodeIp := 167772172 }
+  { dst := ⟨3232235584, 26, false⟩, types := tRemoteWorkload, poolType := ptVXLAN, dstNode := some 2, dstNodeIp := 167772172 }
 
 /-- Regression witness for the defect repaired by repo commit f51d894 (oracle signature
 `order-dep-stale-v4-vtep`, replay corpus/C43/stale-v4-vtep.ops): the IPv4 vxlan manager used to
@@ -706,7 +708,33 @@ theorem stale_v4_vtep_fixed :
     let fresh := ((m0.onVtep 2 (some (0, 167772172))).onRouteUpdate wVxRoute)
     hist.targetOf wVxRoute = none ∧ fresh.targetOf wVxRoute = none ∧
     ((m0.onVtep 2 (some (3232235522, 167772172))).onRouteUpdate wVxRoute).targetOf wVxRoute
-      = some (false, { cidr := ⟨3232235584, 26⟩, typ := .vxlan, gw := 3232235522 }) := by
+      = some (false, { cidr := ⟨3232235584, 26, false⟩, typ := .vxlan, gw := 3232235522 }) := by
+  decide
+
+/-! ### dual-stack: the IPv6 same-subnet re-evaluation is independent of the IPv4 one -/
+
+/-- fd00:100::/48, VXLAN cross-subnet; block fd00:100::/122 of node 3; node 3 = 10.0.1.13/24 +
+fd00:a:1::13/64; local node 1 = 10.0.1.11/24 + fd00:a:1::11/64. -/
+def w6Pool : Op := .pool ⟨336294703215993319496333610198178463744, 48, true⟩ (some (poolOf 0 2 false false))
+def w6Block : Op := .block ⟨336294703215993319496333610198178463744, 122, true⟩ (some 3) []
+def w6Info (a4 a6 : Nat) : NodeInfo :=
+  { v4Addr := a4, cidr := ⟨167772416, 24, false⟩, ipip := 0, vxlan := 0, wg := 0,
+    v6Addr := a6, cidr6 := ⟨336294683725866549913126176815541387264, 64, true⟩ }
+def w6Node3 : Op := .node 3 (some (w6Info 167772429 336294683725866549913126176815541387283))
+def w6Node1 : Op := .node 1 (some (w6Info 167772427 336294683725866549913126176815541387281))
+
+/-- Witness for seeded defect C43-2 (replay corpus/C43/local-dualstack-arrives-last.ops): ONE update
+of the local node that changes both its IPv4 and its IPv6 subnet (here: its first appearance, after
+the pool, the remote block and the remote node) must re-evaluate the IPv6 routes as well as the IPv4
+ones — the two passes of `onNodeUpdate` are independent `if`s, not `if … else if`.  In the model (and
+in the unchanged code) the IPv6 block ends up SameSubnet, as it does when the local node comes first;
+both are instances of `arrival_order_independent_partial`, which is proved for both families. -/
+theorem dualstack_local_node_last_same_subnet :
+    let blk : Cidr := ⟨336294703215993319496333610198178463744, 122, true⟩
+    ((aget ((St.run { me := 1 } [] [w6Pool, w6Block, w6Node3, w6Node1]).2) blk).map (·.sameSubnet) = some true) ∧
+    ((aget ((St.run { me := 1 } [] [w6Node1, w6Pool, w6Block, w6Node3]).2) blk).map (·.sameSubnet) = some true) ∧
+    ((aget ((St.run { me := 1 } [] [w6Pool, w6Block, w6Node3, w6Node1]).2) blk).map (·.dstNodeIp)
+      = some 336294683725866549913126176815541387283) := by
   decide
 
 end CalicoVerif.C43
